@@ -100,6 +100,7 @@ LIST_DOCS = [
     'doc(p(em("abc"), em(strong("defg")), "h"), p(em("ij")))',
     'doc(ul(li(p("a"), p("b"), p("c"), ul(li(p("d"))))))',
     'doc(ul(li(p("a"), bq(p("c")))))',
+    'doc(ul(li(p("a"), ul(li(p("b")), li(p("c"))))))',     # 17: lifting the first inner item leaves li(ul(...)) behind
 ]
 BASIC_DOCS = [
     'doc(p("ab"), bq(p("c")))',
